@@ -18,6 +18,18 @@ def runLedger (_inp : List String) (out : String) : Option Res := Id.run do
   let mut halted := false
   for rec in out.splitOn " ;; " do
     if rec.startsWith "HALT" || rec.startsWith "harnesspanic" then halted := true; note := rec
+    if rec.startsWith "K " then
+      -- fee paid from stake: the per-backer record sums to the recorded total
+      for e in commaList (rec.drop 2).toString do
+        match e.splitOn ":" with
+        | [id, tot, os] =>
+          let parts := (if os.isEmpty then [] else os.splitOn "+").filterMap (fun o => match o.splitOn "." with | [_, _, a] => parseInt? a | _ => none)
+          let total := (parseInt? tot).getD 0
+          let n : Int := (parts.length : Nat)
+          if parts.sum > total + n || parts.sum + n < total then
+            ok := false
+            note := if note.isEmpty then s!"fee paid from stake for dispute {id}: the per-backer record sums to {parts.sum}, recorded total {total}" else note
+        | _ => pure ()
     if rec.startsWith "P " then
       let fs := fieldsOf rec
       let g := fun k => ((getF fs k).bind parseInt?).getD 0
